@@ -277,11 +277,11 @@ def _compute_call(cfg, rng_seed, clock_s, out_path, write_stages, tracer_factory
     return status, table, tr
 
 
-def reference_run(cfg, rng_seed, clock_s, src_prefix):
+def reference_run(cfg, rng_seed, clock_s, src_prefix, outname="out.fits"):
     """Fault-free traced run with staging on.  In-process (the caller is a pool worker)."""
     d = tempfile.mkdtemp(prefix="c17ref-")
     try:
-        out = os.path.join(d, "out.fits")
+        out = os.path.join(d, outname)
         side = os.path.join(d, "side")
         os.mkdir(side)
         cwd = os.getcwd()
@@ -310,7 +310,7 @@ def reference_run(cfg, rng_seed, clock_s, src_prefix):
         shutil.rmtree(d, ignore_errors=True)
 
 
-def fault_run(cfg, rng_seed, clock_s, src_prefix, fault, *, write_stages=True, give_output=True, trace_fits=False):
+def fault_run(cfg, rng_seed, clock_s, src_prefix, fault, *, write_stages=True, give_output=True, trace_fits=False, outname="out.fits"):
     """One forked run.  fault: None | {"kind","step"}.  Returns dict(report, file_bytes, listing, audit)."""
     d = tempfile.mkdtemp(prefix="c17case-")
     rfd, wfd = os.pipe()
@@ -323,7 +323,7 @@ def fault_run(cfg, rng_seed, clock_s, src_prefix, fault, *, write_stages=True, g
             os.dup2(dn, 1)
             os.dup2(dn, 2)
             os.chdir(d)
-            out = os.path.join(d, "out.fits") if give_output else None
+            out = os.path.join(d, outname) if give_output else None
             audit = []
             active = [True]
             io = {"n": 0, "fired": None}
@@ -423,7 +423,7 @@ def fault_run(cfg, rng_seed, clock_s, src_prefix, fault, *, write_stages=True, g
                     active[0] = False  # the harness's own side directory is not the run's doing
                     os.makedirs(os.path.join(d, "side"), exist_ok=True)
                     active[0] = True
-                t = StageTracer(src_prefix, box, out or os.path.join(d, "out.fits"), fault=None if io_mode else fault, report_fd=wfd,
+                t = StageTracer(src_prefix, box, out or os.path.join(d, outname), fault=None if io_mode else fault, report_fd=wfd,
                                 trace_fits=trace_fits, snapshot=io_mode, side_dir=os.path.join(d, "side"))
                 tracer_box[0] = t
                 return t
@@ -479,7 +479,7 @@ def fault_run(cfg, rng_seed, clock_s, src_prefix, fault, *, write_stages=True, g
             raise HarnessError(f"child reported death but exit code is {exit_code}")
         if rep["status"] != "died" and exit_code != 0:
             raise HarnessError(f"child exit code {exit_code}, report {rep}")
-        out = os.path.join(d, "out.fits")
+        out = os.path.join(d, outname)
         fb = open(out, "rb").read() if os.path.exists(out) else None
         fin = os.path.join(d, "side", "final.fits")
         finb = open(fin, "rb").read() if os.path.exists(fin) else None
